@@ -146,6 +146,7 @@ func runChaosPropWith(r *Run, prop string, tune func(o *chaosOpts, g *Rng), got 
 	}
 	r.Knobs["plan_size"] = o.Faults
 	r.Knobs["leader_hunt"] = o.LeaderHunt
+	r.Knobs["term_store_err_pct"] = o.TermStoreErrPct
 	c := newChaos(r, o)
 	defer c.finish()
 	if got != nil {
@@ -181,6 +182,9 @@ func runC03(r *Run) {
 
 func runC04(r *Run) {
 	runChaosProp(r, "C04", func(o *chaosOpts, g *Rng) {
+		if tg := NewRng(r.Seed, "term-store"); tg.Chance(15) {
+			o.TermStoreErrPct = tg.Range(10, 40)
+		}
 		if hg := NewRng(r.Seed, "leader-hunt"); hg.Chance(20) {
 			o.LeaderHunt = hg.Range(1, 4)
 		}
@@ -197,6 +201,9 @@ func runC04(r *Run) {
 
 func runC05(r *Run) {
 	runChaosProp(r, "C05", func(o *chaosOpts, g *Rng) {
+		if tg := NewRng(r.Seed, "term-store"); tg.Chance(15) {
+			o.TermStoreErrPct = tg.Range(10, 40)
+		}
 		if hg := NewRng(r.Seed, "leader-hunt"); hg.Chance(20) {
 			o.LeaderHunt = hg.Range(1, 4)
 		}
